@@ -248,7 +248,7 @@ def define_handler_units():
     c.raises = {"PathIOError": [], "CancelledError": [], "Exception": []}
     for verb, meth in VERBS.items():
         for mode in ("SEQ",):
-            c = contract(SERVER, f"Server.{meth}", props=["C03", "C04", "C05", "C11", "C13", "C16", "C17"] + (["C10"] if meth == "user" else []) + (["C14"] if meth == "abor" else []), name=f"Server.{meth}#{mode}")
+            c = contract(SERVER, f"Server.{meth}", props=["C03", "C04", "C05", "C11", "C13", "C16", "C17"] + (["C10"] if meth == "user" else []) + (["C14"] if meth == "abor" else []) + (["C20"] if meth == "pass_" else []), name=f"Server.{meth}#{mode}")
             c.setup = make_handler_setup(meth, mode)
             c.uses = [(SERVER, "Server.get_paths"), (SERVER, "User.get_permissions#summary"), (SERVER, "Server._start_passive_server")]
             c.exit_hook = pasv_exit if meth in ("pasv", "epsv") else handler_exit
@@ -337,6 +337,13 @@ def c05_exit(S, outcome):
             cwd = conn.slots["current_directory"]
             ctx.check(f"{name}/exit:working-directory-reset-to-home", z3.BoolVal(cwd.fut.value is u.fut.value.fields["home_path"]), info=T5)
     if verb == "pass":
+        # C20: what PASS answers (and therefore what write_line logs) does not depend on the password text
+        from contracts.c20_logs import depends_on
+
+        rest_t = S.vars["rest"].t
+        indep = all(not depends_on(a, rest_t) for r in sess.replies for a in r)
+        ctx.check(f"{name}/exit:replies-to-PASS-do-not-contain-the-password", z3.BoolVal(indep), info={"props": ["C20"]})
+        ctx.check(f"{name}/exit:PASS-handler-logs-nothing", z3.BoolVal(not [e for e in ctx.events if e[0] == "log"]), info={"props": ["C20"]})
         ctx.check(f"{name}/exit:230-iff-logged-in-now", tt(b_implies(code == "230", d("logged"))), info=T5)
         if code == "530":
             ctx.check(f"{name}/exit:530-leaves-not-logged-in", tt(b_not(d("logged"))), info=T5)
